@@ -76,6 +76,7 @@ def finalize(agg, tier):
             need("case:%s:%s" % (cv, rel))
         need("inplace_checked:" + cv)
         need("operands_unchanged:" + cv)
+        need("pairs_sharing_a_coordinate:" + cv)
     for cv in NIST:
         need("path:%s:generator" % cv)
         need("path:%s:generic" % cv)
@@ -800,11 +801,44 @@ class PointFamily(object):
             return self.ent_neg(a.m, a.cls)
         return self.ent_copy(a.m, a.cls)
 
+    def shares_a_coordinate(self, P):
+        """A DIFFERENT point with the same y (Weierstrass: the other points of the horizontal line through P; Edwards:
+        (-x, y)) or the same x ((x, -y)), or None.  A comparison that looks at one coordinate takes them for equal."""
+        from ref import primes
+        c, rng = self.c, self.rng
+        if P is None or P == self.O:
+            return None
+        x, y = P
+        p = c.p
+        cands = []
+        if self.is_ed:
+            cands = [((p - x) % p, y), (x, (p - y) % p)]
+        else:
+            cands.append((x, (p - y) % p))
+            # x'^2 + x x' + (x^2 + a) = 0: the two other abscissae with the same y
+            disc = (x * x - 4 * (x * x + c.a)) % p
+            rt = primes.sqrt_mod(disc, p)
+            if rt is not None:
+                inv2 = pow(2, -1, p)
+                for r_ in (rt, p - rt):
+                    cands.append((((-x + r_) * inv2) % p, y))
+        cands = [Q for Q in cands if Q != P and self.on_curve(Q)]
+        return rng.choice(cands) if cands else None
+
     def pick_pair(self, ents):
         rng = self.rng
         a = rng.choice(ents)
         r = rng.random()
-        if r < 0.22:
+        if r < 0.12:
+            for _ in range(8):
+                Q = self.shares_a_coordinate(a.m)
+                if Q is not None:
+                    self.ctx.count("pairs_sharing_a_coordinate:" + self.name)
+                    b = self.ent_ctor(Q, "shares-coordinate") if rng.random() < 0.6 else self.ent_sum(Q, "shares-coordinate")
+                    return (a, b) if rng.random() < 0.5 else (b, a)
+                a = rng.choice(ents)
+            b = rng.choice(ents)
+        elif r < 0.22:
             b = self.other_route(a)
         elif r < 0.40:
             b = self.ent_ctor(self.m_neg(a.m), "-" + a.cls if not a.cls.startswith("-") else a.cls[1:])
